@@ -194,6 +194,10 @@ def gen(rng, tier, quarantine=()):
         r = rng.random()
         if r < 0.25 and pending:
             pid = pending.pop(0)
+            if rng.random() < 0.12:
+                # deactivated before it was ever activated: nothing is active, nothing completes --
+                # the stream is still to open, once
+                ops.append({"op": "exit", "id": pid, "early": True})
             ops.append({"op": "enter", "id": pid})
             live.append(pid)
         elif r < 0.4 and (live or done):
